@@ -186,3 +186,8 @@ Theorem C06_capstone_squared_euclidean_refuted_without_condition :
     /\ ~ Rabs (f2r f - sp_squared_euclidean (map f2r x) (map f2r y))
          <= ((1 + u64) ^ (length x + 2) - 1) * sp_squared_euclidean (map f2r x) (map f2r y).
 Proof. exact capstone_squared_euclidean_refuted_without_condition. Qed.
+
+(* a data-level sufficient condition for the squares: [d] is the value of an entry of the float vector `x - y`; if it is 0
+   or at least 2^-511 in magnitude, its square does not underflow *)
+Theorem C06_capstone_square_normal : forall d : R, d = 0 \/ / 2 ^ 511 <= Rabs d -> normal64 (d ^ 2).
+Proof. exact normal64_sq. Qed.
